@@ -49,8 +49,8 @@ Hashes == {"cur", "next", "bogus", "curx"}
 TLSAccepts(used) == "cur" \in used
 Completes(used, list) == TLSAccepts(used) /\ used \subseteq list
 
-\* DialChain: the server presents the chain <<cur, next>> (server certificate cur, followed by another
-\* certificate).  The statement pins the SERVER certificate; with it pinned and everything confirmed both
+\* DialChain: the server presents the chain <<cur, other>> (server certificate cur, followed by another,
+\* valid certificate whose hash is "bogus").  The statement pins the SERVER certificate; with it pinned and everything confirmed both
 \* outcomes are consistent with "only if".
 ChainCompletes(used, list) == IF "cur" \notin used THEN {FALSE}
                               ELSE IF used \subseteq list THEN {TRUE, FALSE} ELSE {FALSE}
